@@ -387,3 +387,38 @@ Proof.
     split; try discriminate; try tauto; try (intros (H1 & H2 & H3); congruence);
     try (intros H; repeat split; try discriminate; exact H).
 Qed.
+
+(* ---- "... so that a persistent queue keeps the request" ---------------------------------------------------------- *)
+Lemma request_kept_is_final_shutdown sc script : request_kept sc script = final_is_shutdown sc script.
+Proof. unfold request_kept, final_is_shutdown, pq_keeps. destruct (final_err _ _); reflexivity. Qed.
+
+Lemma interrupted_request_is_kept_l sc script k st s :
+  nth_error (steps_of sc script) k = Some st -> reaches_wait sc st ->
+  sc_stop sc = Some s -> Z.max (s_end st) s <= s_end st + s_delay st ->
+  (forall c, ctx_done sc = Some c -> Z.max (s_end st) s < Z.max (s_end st) c) ->
+  request_kept sc script = true.
+Proof.
+  intros H RW St Le Hc. rewrite request_kept_is_final_shutdown.
+  exact (proj2 (proj2 (stop_in_wait_l sc script k st s H RW St Le Hc))).
+Qed.
+
+(* a delivered or finally rejected request is NOT kept, unless the exporter's own error is/claims shutdown *)
+Lemma finished_request_not_kept_l sc script :
+  verdict_of sc script = VOk \/
+  (verdict_of sc script <> VShutdown /\ is_shutdown (last_err (steps_of sc script)) = false) ->
+  request_kept sc script = false.
+Proof.
+  intros H. rewrite request_kept_is_final_shutdown.
+  destruct (final_is_shutdown sc script) eqn:F; [|reflexivity].
+  apply final_is_shutdown_iff_l in F. destruct H as [H|[H1 H2]]; destruct F as [F|(F1 & F2 & F3)]; congruence.
+Qed.
+
+(* ---- a context expiry is a transient outcome --------------------------------------------------------------------- *)
+Lemma context_expiry_is_transient_l sc s a c :
+  att_done sc s = Some c -> c < s + a_dur a ->
+  effective sc s a = (Z.max c s, RErr EBase) /\ is_permanent EBase = false /\ throttle_of EBase = None /\
+  (forall sg, partial_of sg EBase = None) /\ is_shutdown EBase = false.
+Proof.
+  intros D L. unfold effective. rewrite D. destruct (c <? s + a_dur a) eqn:E; [|lia].
+  repeat split; reflexivity.
+Qed.
